@@ -5,6 +5,7 @@ import BtcwVerif.Lemmas.WFRollback
 import BtcwVerif.Lemmas.Calls
 import BtcwVerif.Lemmas.RefAll
 import BtcwVerif.Lemmas.RefUtxos
+import BtcwVerif.Lemmas.RefExact
 /-!
 # C01 — balance and spendable outputs equal ledger truth
 
@@ -343,5 +344,56 @@ example : ConsistentHistory {} exHistory := by
       first
         | (cases ht; exact ⟨by decide, by decide⟩)
         | cases ht⟩
+
+/-! ## EXACT order of `UnspentOutputs` / `OutputsToWatch` (tx3)
+
+`C01_utxos_ledger` / `C01_watch_ledger` above compare the answers with the ledger as permutations.  The buckets are in
+bbolt key order after every sequence of store calls (`SortedS`, Lemmas/SortedStore.lean), `fetchCredits` walks the
+unspent index and then the unconfirmed-credits bucket with a cursor, so the order is determined: -/
+
+open Ledger in
+/-- **C01, spendable outputs, exact order**: `UnspentOutputs` answers `a ++ b` where `a` lists the spendable outputs of
+CONFIRMED transactions in ascending outpoint order (hash, then index: the byte order of `canonicalOutPoint`), `b` those
+of UNCONFIRMED transactions in ascending outpoint order, and `a ++ b` is a permutation of the ledger's `utxos` — which
+determines the list (`C01_utxos_order_unique`) -/
+theorem C01_utxos_ledger_exact (es : List Event) (hc : ConsistentHistory {} es) :
+    ∃ s a b, storeAfter Store.empty {} es = .ok s ∧ unspentOutputs s (ledgerAfter {} es).now = .ok (a ++ b) ∧
+      (a ++ b).Perm (Ledger.utxos (ledgerAfter {} es)) ∧
+      (∀ c ∈ a, c.block.isSome = true) ∧ (∀ c ∈ b, c.block = none) ∧
+      (a.map (·.op)).Pairwise OutPoint.before ∧ (b.map (·.op)).Pairwise OutPoint.before := by
+  obtain ⟨s, h1, hg, _, hs⟩ := good_sorted_reachable es hc
+  obtain ⟨a, b, h2⟩ := utxos_refines_exact hg hs
+  exact ⟨s, a, b, h1, h2⟩
+
+/-- the description in `C01_utxos_ledger_exact` determines the answer: two lists of that shape with the same elements
+are equal -/
+theorem C01_utxos_order_unique {a1 b1 a2 b2 : List Credit} (hp : (a1 ++ b1).Perm (a2 ++ b2))
+    (x1 : ∀ c ∈ a1, c.block.isSome = true) (y1 : ∀ c ∈ b1, c.block = none)
+    (x2 : ∀ c ∈ a2, c.block.isSome = true) (y2 : ∀ c ∈ b2, c.block = none)
+    (u1 : (a1.map (·.op)).Pairwise OutPoint.before) (v1 : (b1.map (·.op)).Pairwise OutPoint.before)
+    (u2 : (a2.map (·.op)).Pairwise OutPoint.before) (v2 : (b2.map (·.op)).Pairwise OutPoint.before) :
+    a1 ++ b1 = a2 ++ b2 := by
+  rw [List.pairwise_map] at u1 v1 u2 v2
+  exact append_eq_of_perm_sorted (fun c : Credit => c.block.isSome) (fun c c' : Credit => OutPoint.before c.op c'.op)
+    (fun a b => OutPoint.before_asymm _ _) hp
+    x1 (fun c hc => by simp [y1 c hc]) x2 (fun c hc => by simp [y2 c hc]) u1 v1 u2 v2
+
+open Ledger in
+/-- **C01, outputs to watch, exact order**: `OutputsToWatch` answers `a ++ b`: the watched outputs of confirmed
+transactions in ascending outpoint order, then those of unconfirmed transactions in ascending outpoint order -/
+theorem C01_watch_ledger_exact (es : List Event) (hc : ConsistentHistory {} es) (now : Nat) :
+    ∃ s a b, storeAfter Store.empty {} es = .ok s ∧ outputsToWatch s now = .ok (a ++ b) ∧
+      ((a ++ b).map (·.op)).Perm (Ledger.watchSet (ledgerAfter {} es)) ∧
+      (∀ c ∈ a, inChain (ledgerAfter {} es) c.op.hash = true) ∧ (∀ c ∈ b, inPool (ledgerAfter {} es) c.op.hash = true) ∧
+      (a.map (·.op)).Pairwise OutPoint.before ∧ (b.map (·.op)).Pairwise OutPoint.before := by
+  obtain ⟨s, h1, hg, _, hs⟩ := good_sorted_reachable es hc
+  obtain ⟨a, b, h2⟩ := watch_refines_exact hg hs now
+  exact ⟨s, a, b, h1, h2⟩
+
+/-- non-vacuity: after `exHistory` the spendable outputs come confirmed-first in outpoint order — the coinbase output
+`(1,0)` (maturity is the caller's business); `(2,0)` is spent by the unconfirmed `(3)` and `(2,1)` is leased, so neither
+is listed — then the unconfirmed `(3,0)` -/
+example : (storeAfter Store.empty {} exHistory >>= fun s => unspentOutputs s 1000000000).map (·.map (·.op)) =
+    .ok [⟨1, 0⟩, ⟨3, 0⟩] := by decide
 
 end TxStore.C01
